@@ -17,7 +17,7 @@ def closed_form(stamps, period, punit, unit, tol):
 
 class C13(Prop):
     id = 'C13'
-    rule_added = '25% of online cases after an earlier run + reset(); 25% of all cases on an object configured differently before. 12% with epoch-size integer time-stamps (beyond 2**53). The first stamp may be negative. 15% of the online runs contain an update that fails part-way (sample None), caught by the caller: the counter must equal the count with or without that stamp.'
+    rule_added = '25% of online cases after an earlier run + reset(); 25% of all cases on an object configured differently before. 12% with epoch-size integer time-stamps (beyond 2**53). The first stamp may be negative. 20%: an earlier recording under another period/tolerance on the same object, then set_sampling_period() to the real configuration (offline: the counter continues, so the difference is judged). 15% of the online runs contain an update that fails part-way (sample None), caught by the caller: the counter must equal the count with or without that stamp.'
     rule = ('time-stamp sequences of 1..50 stamps with dyadic gaps (on-period, exactly on either tolerance bound, '
             'just inside/outside, zero, huge) x period in {1 s, 500 ms, 2 s, 250000 us, 4 ms} x default unit in '
             '{s, ms, us} x tolerance in {0, 1/8, 1/4, 1/2, 1, 0.1 (kept away from the bounds)} x '
@@ -91,7 +91,11 @@ class C13(Prop):
                 # an update that fails part-way (its sample is None) at some position: the caller catches and goes on
                 'fail_at': (rng.randrange(1, n) if (mode.startswith('online') and n >= 3 and rng.random() < 0.15) else None),
                 'preconfig': ([period * rng.choice([1, 2]), punit, rng.choice([t for t in TOLS if t != tol])]
-                              if rng.random() < 0.25 else None)}
+                              if rng.random() < 0.25 else None),
+                # an earlier recording under ANOTHER sampling period / tolerance on the same object (its gaps were
+                # checked), then set_sampling_period() to the real configuration (online: after reset())
+                'earlier_run': ([period * rng.choice([2, 3, 5]), punit, rng.choice(TOLS), rng.randint(2, 6)]
+                                if rng.random() < 0.2 else None)}
 
     def judge(self, case):
         v = Verdict()
@@ -129,6 +133,32 @@ class C13(Prop):
                 v.info['reconfigured'] = 1
             else:
                 m = drive.Mon(kind, sd)
+            base_count = 0
+            er = case.get('earlier_run')
+            if er and not case.get('preconfig') and '[' not in text:
+                # (bound-free formulas only: what a change of the period after the first use does to the windows of
+                # bounded operators that were already built is not the subject of this property)
+                ep, epu, etol, en = er
+                m.spec.set_sampling_period(ep, epu, etol)
+                eP = Fr(ep) * U[epu] / U[unit]
+                # (gaps of 1 and of 2.5 old periods: some inside, some outside the old band)
+                est = [float(eP * k) for k in [0, 1, 2, Fr(9, 2), Fr(11, 2), 8][:en]]
+                if any(Fr(x) != Fr(x).limit_denominator(2 ** 40) for x in est):
+                    v.skip = 'stamp not exactly representable'
+                    return v
+                if case['mode'].startswith('online'):
+                    for t0 in est:
+                        m.update(t0, [('x', 0.0)])
+                    m.reset()
+                else:
+                    m.evaluate({'time': list(est), 'x': [0.0] * len(est)})
+                    base_count = closed_form(est, ep, epu, unit, etol)       # the counter is cumulative offline
+                    if m.counter != base_count:
+                        v.bad('counter', 'period=%s%s unit=%s tol=%s mode=%s stamps=%s: counter=%r, expected %d' % (
+                            ep, epu, unit, etol, case['mode'], fmt(est, 20), m.counter, base_count))
+                        return v
+                m.spec.set_sampling_period(period, punit, tol)
+                v.info['reconfigured-after-an-earlier-recording'] = 1
             if case['mode'].startswith('online') and case.get('after_reset'):
                 # an earlier run on the same object, then reset(): the count must be that of the new run alone
                 for j, t0 in enumerate(case['after_reset']):
@@ -152,7 +182,7 @@ class C13(Prop):
                 out = [m.update(stamps[i], [('x', vals[i])]) for i in range(n)]
             else:
                 out = drive.values(m.evaluate({'time': list(stamps), 'x': list(vals)}))
-            got = m.counter
+            got = m.counter - base_count
         except Exception as e:
             v.bad('raises:' + type(e).__name__, '%r: raised %s: %s' % (case, type(e).__name__, e))
             return v
